@@ -45,6 +45,14 @@ def _(values: float) -> set[int]:
     return _drop_nulls_scalar(values)
 
 
+@find_nulls.register(numpy.number)
+@find_nulls.register(numpy.bool_)
+def _(values: Any) -> set[int]:
+    # numpy scalars that do not derive from `int` / `float` (e.g. `x.max()` of
+    # an integer column) are constants too.
+    return _drop_nulls_scalar(values)
+
+
 def _drop_nulls_scalar(values: Union[int, float]) -> set[int]:
     if isinstance(values, FactorValues):
         values = values.__wrapped__
@@ -118,6 +126,17 @@ def drop_rows(values: Any, indices: Sequence[int]) -> Any:
     raise ValueError(
         f"No implementation of `drop_rows()` for values of type `{repr(type(values))}`."
     )
+
+
+@drop_rows.register(int)
+@drop_rows.register(float)
+@drop_rows.register(str)
+@drop_rows.register(numpy.number)
+@drop_rows.register(numpy.bool_)
+def _(values: Any, indices: Sequence[int]) -> Any:
+    # Constant values have no rows of their own: they are broadcast over
+    # whichever rows remain.
+    return values
 
 
 @drop_rows.register
